@@ -361,6 +361,14 @@ def main_check(modname, clsname, tier, seed, replay=None):
     mod = importlib.import_module(modname)
     chk = getattr(mod, clsname)()
     pid = chk.ID
+    if hasattr(chk, "run_custom"):
+        # engines other than Hypothesis+probe (rapidcheck, libFuzzer): the check drives
+        # its own binary, writes evidence via write_evidence() and returns the exit code
+        try:
+            return chk.run_custom(tier, seed, replay)
+        except build.BuildError as e:
+            print("BUILD-ERROR property=%s %s" % (pid, e))
+            return 2
     # build first (serialised by flock), so that shards only run
     try:
         if chk.PROBE:
